@@ -54,7 +54,7 @@ def recording_learner(base, rec):
             rec.events.append(("pull", L["idx"], p))
             L["pulls"].append(p)
             if L["tm"]:
-                L["tm"].on_pull(p, is_query=(rec.hub.phase in ("query", "last")))
+                L["tm"].on_pull(p, is_query=(rec.hub.phase in ("query", "last", "midquery")))
             return p
 
         def receive_reward(self, time, reward):
@@ -331,10 +331,15 @@ class WrapMon(Monitor):
 
     # ------------------------------------------------------------------ recommendation (C07 / C09 / C10)
     def before_query(self, ctx):
+        self._stash = list(self.rec.events)
         self.rec.events.clear()
 
     def on_query(self, ctx, point):
         self._recommend(ctx, point)
+        if ctx.extra.get("mid"):
+            # a query between pull and receive_reward: the events of the open round stay on record
+            self.rec.events[:] = self._stash
+            self.obs["mid_round_queries"] += 1
 
     def on_last(self, ctx, point):
         self._recommend(ctx, point)
